@@ -1,6 +1,6 @@
 SPECIFICATION Spec
 CONSTANT MaxNow = 5
-CONSTANT MaxLevel = 7
+CONSTANT MaxLevel = 6
 CONSTRAINT Bound
 VIEW View
 INVARIANT NeverLate
